@@ -90,6 +90,24 @@ def compile_props(ctx):
         ctx.obligations.append(('Print Assumptions', False, 'not closed: %s' % (axioms or 'count %d/%d' % (closed, asked))))
 
 
+def run_coqchk(ctx):
+    """Thorough tier: re-check the compiled closure of the property file with the independent checker."""
+    t = time.time()
+    try:
+        rc, out = sh(['coqchk', '-silent', '-o', '-Q', 'theories', 'Ergo', '-Q', 'props', 'ErgoProps', 'ErgoProps.' + ctx.prop],
+                     cwd=COQ, timeout=3000)
+    except subprocess.TimeoutExpired:
+        ctx.cov['coqchk'] = {'status': 'timeout after 3000 s (not counted as a failure)'}
+        return
+    m = re.search(r'\* Axioms:(.*?)\n\s*\n\* ', out, re.S)
+    listed = ' '.join(m.group(1).split()) if m else 'unparsed'
+    ctx.cov['coqchk'] = {'rc': rc, 'wall_s': round(time.time() - t), 'axioms': listed, 'tail': out[-400:]}
+    if rc != 0:
+        ctx.obligations.append(('coqchk', False, out[-300:]))
+    else:
+        ctx.obligations.append(('coqchk', True, ''))
+
+
 def load_known():
     try:
         return json.load(open(os.path.join(VERIF, 'known_findings.json')))
@@ -191,7 +209,7 @@ def finish(ctx):
         ctx.violations.append(('broken', 'forbidden construct in the development: %s' % ctx.gate[:3], {'gate': ctx.gate}))
     if ctx.go_build != 'ok':
         ctx.violations.append(('broken', 'go build -tags verif failed', {'output': ctx.go_build}))
-    concrete = [v for v in ctx.violations if v[0] == 'monitor']
+    concrete = [v for v in ctx.violations if v[0] == 'monitor' or (v[0] == 'mismatch' and v[2].get('no_failing_input') is False)]
     lines = []
     for kf in ctx.known:
         lines.append('KNOWN-FINDING: property=%s %s' % (ctx.prop, kf))
@@ -259,6 +277,8 @@ def run(ctx, a):
     prepare(ctx)
     grep_gate(ctx)
     compile_props(ctx)
+    if ctx.tier == 'thorough' and os.path.exists(os.path.join(COQ, 'props', ctx.prop + '.vo')):
+        run_coqchk(ctx)
     import checks
     fn = getattr(checks, 'check_' + a.prop, None)
     if fn is None:
